@@ -27,7 +27,7 @@ m = {
     "setup_cmd": "./setup.sh",
     "hooks": {
         "guard": "cfg(kani)",
-        "enable": "set by cargo-kani itself for every crate it compiles (rustc --cfg=kani); never set by plain cargo build/test",
+        "enable": "set by cargo-kani itself for every crate it compiles (rustc --cfg=kani); never set by plain cargo build/test. One hook (ceeca43) additionally distinguishes cfg(verif_native) INSIDE the cfg(kani) module: set only by the driver's native replay command (--cfg=kani --cfg=verif_native), so that a replayed counterexample uses the tracker's real channel instead of the model queue",
         "baseline_off_cmd": "cd /repo && cargo nextest run --workspace --no-fail-fast --offline || cargo test --workspace --no-fail-fast --offline",
         "source_commits": json.load(open(os.path.join(HERE, "hook_commits.json"))) if os.path.exists(os.path.join(HERE, "hook_commits.json")) else [],
         "add_only": True,
